@@ -484,7 +484,18 @@ class PVLEncoder(object):
             return True
 
         tok = Token(s, grammar=self.grammar, decoder=self.decoder)
-        return not tok.is_unquoted_string()
+        if not tok.is_unquoted_string():
+            return True
+
+        # Finally, the bare text must read back as the very same string,
+        # and not as a keyword (NULL, true, ...), a reserved word in
+        # another letter case (end, Group, ...), or a number (inf, nan).
+        try:
+            decoded = self.decoder.decode_simple_value(s)
+        except ValueError:
+            return True
+
+        return not (isinstance(decoded, str) and decoded == s)
 
     def encode_string(self, value) -> str:
         """Returns a ``str`` formatted as a PVL String based
@@ -653,7 +664,7 @@ class ODLEncoder(PVLEncoder):
 
         Overrides parent function.
         """
-        return not self.decoder.is_identifier(s)
+        return not self.decoder.is_identifier(s) or super().needs_quotes(s)
 
     def is_assignment_statement(self, s) -> bool:
         """Returns true if *s* is an ODL Assignment Statement, false otherwise.
@@ -769,7 +780,7 @@ class ODLEncoder(PVLEncoder):
         """Extends parent function by appropriately quoting Symbol
         Strings.
         """
-        if self.decoder.is_identifier(value):
+        if not self.needs_quotes(value):
             return value
         elif self.is_symbol(value):
             return "'" + value + "'"
@@ -1113,7 +1124,7 @@ class PDSLabelEncoder(ODLEncoder):
         which typically means that they are double-quoted and not
         single-quoted.
         """
-        if self.decoder.is_identifier(value):
+        if not self.needs_quotes(value):
             return value
         elif self.is_symbol(value) and self.symbol_single_quote:
             return "'" + value + "'"
